@@ -74,8 +74,8 @@ def nt_c20(lhs, impl):
 PROPS["C20"] = {
     "modules": ["WhatIs.Props.C20"],
     "theorems": ["WhatIs.C20.sanitizes", "WhatIs.C20.sanitizes_path", "WhatIs.C20.path_no_raw_control", "WhatIs.C20.no_raw_control", "WhatIs.C20.line_count",
-                 "WhatIs.C20.lines_eq_layout", "WhatIs.C20.encode_no_c0", "WhatIs.C20.sanitize_id_on_clean"],
-    "facts": {"cli.printInfo.sanitizes": True, "cli.pathSanitized": True},
+                 "WhatIs.C20.lines_eq_layout", "WhatIs.C20.escapes_lead", "WhatIs.C20.indent_exact", "WhatIs.C20.encode_no_c0", "WhatIs.C20.sanitize_id_on_clean"],
+    "facts": {"cli.printInfo.sanitizes": True, "cli.pathSanitized": True, "cli.escapesLead": True},
     "nontrivial": nt_c20,
     "rule": "Info trees fed to the REAL printInfo (verif build of cmd/decipher): every C0/DEL/C1 control (UTF-8 and raw byte "
             "forms) and stray bytes at start/middle/end of description, attribute name, attribute value at depths 0..2, plus "
